@@ -94,6 +94,13 @@ def run(rep, tier):
         for f13 in prog.fns(c13.FN):
             if not c13.is_forwarder(f13):
                 c13.check_count_width(rep_, prog, f13)
+                # a cycle left without a feedback vertex has no tree rooted on it: mcb_sva_fvs_trees finds no candidate for its phase and emits an
+                # empty "cycle" (shared with C13: what reaches the heap, early exits, when the emission loop stops)
+                sub13 = type(rep_)(rep_.prop, rep_.tier)
+                c13.check(sub13, prog, f13)
+                for i in sub13.instances.values():
+                    if i.rule in ('R13e', 'R13f', 'R13j'):
+                        rep_.add(i.rule, i.site, i.function, i.what, i.status, i.detail, key=i.key)
         search.check_combine_types(rep_, prog)
         from . import c16
         c16.shared(rep_, prog)
@@ -105,6 +112,9 @@ def run(rep, tier):
     rep.rule('R02j', 'the saturating sum of the searches is applied in the distance type (no floating -> integral truncation of weights)', floor=4)
     rep.rule('R07k', 'numeric_limits<T>::infinity() only for floating-point T (0 for integral weight types)', floor=0)
     rep.rule('R13h', 'the feedback vertex set behind the FVS trees keeps degrees as wide as the graph reports them (a hub of degree 2^16 dropped from the set leaves cycles without a tree: empty cycles are emitted)', floor=1)
+    rep.rule('R13j', 'every vertex live after the clean-up of greedy_fvs enters the heap (a cycle without a feedback vertex has no tree: mcb_sva_fvs_trees emits an empty cycle)', floor=1)
+    rep.rule('R13e', 'the emission loop of greedy_fvs runs while a cycle can be left (shared with C13)', floor=0)
+    rep.rule('R13f', 'no early exit of greedy_fvs for a graph shape that admits a cycle (shared with C13)', floor=0)
     rep.rule('R07t', 'sorted-range algorithms in the tree labels see sorted ranges (inconsistent trees make the isometric variant emit an empty cycle)', floor=1)
     run_rules(rep, tier, RULES, DOCS, extra=extra)
     rep.rule('R01e', 'parity propagation is an exclusive-or with "edge is signed" (trees, signed search, candidate test)', floor=3)
